@@ -176,6 +176,12 @@ func runProperty(repo, verif, prop, tier string, seed int64, ov map[string][]byt
 			thoroughExtras(c)
 		}
 	}()
+	if whole && filter == nil {
+		thoroughArch(c, f, repo, ov)
+		if len(ov) == 0 {
+			thoroughAudit(c, repo, verif)
+		}
+	}
 	if filter != nil {
 		var keep []*Obligation
 		for _, o := range c.Obs {
